@@ -1,6 +1,7 @@
 #!/usr/bin/env python3
 """Apply every benign variant to /repo in turn (undoing it straight afterwards) and run all quick checks: every check must stay silent."""
 import glob, json, os, subprocess, sys
+import concurrent.futures as cf
 ALL = ["C%02d" % i for i in range(1, 21)]
 st = subprocess.run(["git", "-C", "/repo", "status", "--porcelain"], capture_output=True, text=True).stdout.strip()
 if st:
@@ -15,9 +16,13 @@ for p in sorted(glob.glob("/verif/selftest/benign/*.patch")):
         mat[name] = {"error": "does not apply"}; print(name, "DOES NOT APPLY"); continue
     row = {}
     try:
-        for pid in ALL:
-            r = subprocess.run(["/verif/check", pid, "quick"], capture_output=True, text=True, cwd="/verif",
-                               env=dict(os.environ, PCV_EVIDENCE_DIR="/tmp/pcv-evidence-scratch"))
+        def one(pid):
+            return pid, subprocess.run(["/verif/check", pid, "quick"], capture_output=True, text=True, cwd="/verif",
+                                       env=dict(os.environ, PCV_EVIDENCE_DIR="/tmp/pcv-evidence-scratch"))
+        first = [one(ALL[0])]
+        with cf.ThreadPoolExecutor(10) as ex:
+            rest = list(ex.map(one, ALL[1:]))
+        for pid, r in first + rest:
             if r.returncode != 0:
                 what = [l.strip()[:200] for l in r.stdout.splitlines() if l.strip().startswith(("what=", "rule="))][:4]
                 row[pid] = what
@@ -27,5 +32,9 @@ for p in sorted(glob.glob("/verif/selftest/benign/*.patch")):
     print(name, "SILENT" if not row else "ALARM in " + ",".join(row), flush=True)
     for k, v in row.items():
         print("    ", k, v[:2])
-if not only:
+if only:
+    old = json.load(open("/verif/selftest/benign/matrix.json"))
+    old.update(mat)
+    mat = old
+if True:
     json.dump(mat, open("/verif/selftest/benign/matrix.json", "w"), indent=1, sort_keys=True)
